@@ -333,6 +333,52 @@ def r6_filter_table(cx):
     cx.require(ok, sk[0] if sk else fn, "skips are hidden iff missing requirements were not requested", construct=short(sk[0]) if sk else "(none)")
 
 
+def r8_own_attributes(cx):
+    """'reported with its key, component name, tags and links': what get_tags / get_delegate(rule).links return must be the rule's own.  The class-level
+    defaults of ComponentType (tags = [], metadata = {}, links ...) are one object for every component: the constructor may copy them, never grow them."""
+    cx.rule("C12.R8", "a rule is reported with its own tags / links / metadata and once per registered observer", floor=3)
+    m = cx.repo.module("insights.core.dr")
+    classes = [m.cls("ComponentType", "C12.R8")]
+    pm = cx.repo.module(PL)
+    classes += [c for c in pm.tree.body if isinstance(c, ast.ClassDef)]
+    n = 0
+    for c in classes:
+        chain = [c]
+        ct = m.cls("ComponentType", "C12.R8")
+        if c is not ct:
+            chain.append(ct)          # defaults inherited from the base are shared just the same
+        for fn in [f for f in c.body if isinstance(f, FUNC_TYPES)]:
+            bad = []
+            for owner in chain:
+                shared = feat.class_level_mutables(owner)
+                if not shared:
+                    continue
+                bad += feat.shared_default_mutations(ast.ClassDef(name=c.name, bases=[], keywords=[], body=owner.body, decorator_list=[]), fn)
+            if fn.name == "__init__" or bad:
+                n += 1
+                cx.require(not bad, bad[0] if bad else fn, "%s.%s modifies no class-level default (tags, links, metadata, requires ... are shared by every component)" % (c.name, fn.name),
+                           construct=short(stmt_of(bad[0]), 90) if bad else "def %s.%s" % (c.name, fn.name))
+    # observers: registering the same observer twice must not report every outcome twice -> observer tables are sets (or guarded appends)
+    obs_stores = []
+    for x in ast.walk(m.tree):
+        if isinstance(x, ast.Call) and isinstance(x.func, ast.Attribute) and x.func.attr in ("add", "append", "extend", "update", "insert") and isinstance(x.func.value, ast.Subscript) \
+                and U(x.func.value.value) in ("self.observers", "TYPE_OBSERVERS"):
+            obs_stores.append(x)
+    if not obs_stores:
+        cx.unknown(m.tree.body[0], "cannot find where observers are registered (self.observers[...] / TYPE_OBSERVERS[...])")
+    for x in obs_stores:
+        ok = x.func.attr in ("add", "update")
+        if not ok:
+            arg = U(x.args[0]) if x.args else "?"
+            ok = any(p_ is False and t.startswith("%s in " % arg) for t, p_ in guard_texts(x))
+        cx.require(ok, x, "registering an observer is idempotent (a set, or an append guarded by 'not in'): an evaluator registered twice still files each outcome once", construct=short(x, 80))
+    for nm, node in (("TYPE_OBSERVERS", m.top.get("TYPE_OBSERVERS")),):
+        ok = node is not None and isinstance(node, ast.Call) and call_name(node) in ("defaultdict", "collections.defaultdict") and node.args and U(node.args[0]) == "set"
+        guarded = all(x.func.attr in ("add", "update") or any(p_ is False for t, p_ in guard_texts(x)) for x in obs_stores)
+        cx.require(ok or (node is not None and guarded and all(x.func.attr not in ("add", "update") for x in obs_stores)), node if node is not None else m.tree.body[0],
+                   "the table of type observers holds sets", construct="%s = %s" % (nm, U(node)))
+
+
 def run(cx):
     repo = cx.repo
     cx.extra["explanation"] = ("C12: return discipline of rule.process, validation order and stub construction of Response, response-type table over all Response subclasses, "
@@ -347,6 +393,7 @@ def run(cx):
     cx.guard(r4_dispatch, mods)
     cx.guard(r5_headings)
     cx.guard(r6_filter_table)
+    cx.guard(r8_own_attributes)
     cx.borrow(c01.r1_run_guard, "C01.R1", "C12.R7", "one attempt per rule (C01.R1) and observers fired once in finally (C03.R1)")
     cx.borrow(c03.r1_no_escape, "C03.R1", "C12.R7", "one attempt per rule (C01.R1) and observers fired once in finally (C03.R1)")
     # 'accounted' means outcome, exception and missing requirements live in the one broker the evaluator reports from: nobody copies instances
